@@ -12,6 +12,7 @@ def demo(wt, sd):
         pkg = "emitter"
         for line in txt.split("\n"):
             if line.startswith("package "): pkg = line.split()[1].replace("_test", ""); break
+        if pkg == "main": pkg = "."
         dst = os.path.join(wt, pkg, "zz_seed_demo_test.go"); shutil.copy(os.path.join(sd, "demo_test.go"), dst)
         rc, out = sh("cd %s && go test -vet=off -count=1 ./%s/ 2>&1 | tail -15" % (wt, pkg), env=ENV)
         os.remove(dst)
